@@ -80,14 +80,283 @@ def _name_hessian_entries(fn):
     return ast.fix_missing_locations(ast.copy_location(new, fn))
 
 
+# ---------------------------------------------------------------------------------------------------------
+# Normalisation of `fitting.jacobian` before translation (round 6: harmless refactors must re-prove).
+# Every step is semantics-preserving for side-effect-free code and refuses (leaves the code alone, which ends
+# in UNTRANSLATABLE and the hand fallback) whenever its preconditions are not met.  The regenerated
+# definitions are additionally compared numerically with the Python on every run.
+#   1. parameter look-ups  <pars>[<prefix> + 'amp'].value          -> canonical text (the model input `amp`)
+#   2. comprehensions over a constant sequence, `tuple(...)`/`list(...)` of them        -> tuple displays
+#   3. calls of simple module-level helpers (assignments + one return, positional name arguments) -> inlined
+#   4. (nested) tuple assignments, also through a name bound to a tuple display      -> single assignments
+#   5. the k-th `<rows>.append(e)` on the list that is returned     -> `__row_k = e`   (k = 0..5: amp, xo, yo,
+#      sx, sy, theta — the documented order; which row is appended under which `vary` flag, and in which
+#      order, is the hand model `jacRows`, tied by the correspondence)
+# ---------------------------------------------------------------------------------------------------------
+
+def _canon_lookup(name):
+    return ast.parse(f"pars[prefix + '{name}'].value").body[0].value
+
+
+class _Lookups(ast.NodeTransformer):
+    def visit_Attribute(self, node):
+        self.generic_visit(node)
+        if node.attr == 'value' and isinstance(node.value, ast.Subscript) and isinstance(node.value.value, ast.Name):
+            sl = node.value.slice
+            if isinstance(sl, ast.BinOp) and isinstance(sl.op, ast.Add) and isinstance(sl.left, ast.Name) \
+                    and isinstance(sl.right, ast.Constant) and sl.right.value in _HPARS:
+                return _canon_lookup(sl.right.value)
+        return node
+
+
+class _Subst(ast.NodeTransformer):
+    def __init__(self, mapping):
+        self.mapping = mapping
+
+    def visit_Name(self, node):
+        if node.id in self.mapping:
+            import copy
+            new = copy.deepcopy(self.mapping[node.id])
+            if isinstance(new, ast.Name):
+                new.ctx = node.ctx
+            return new
+        return node
+
+
+def _subst(node, mapping):
+    import copy
+    return _Subst(mapping).visit(copy.deepcopy(node))
+
+
+def _const_seq(node):
+    if isinstance(node, (ast.Tuple, ast.List)) and node.elts and \
+            all(isinstance(e, ast.Constant) and isinstance(e.value, (str, int, float)) for e in node.elts):
+        return [e.value for e in node.elts]
+    return None
+
+
+def _collect_seqs(module, fn):
+    """names bound exactly once (at module level or in the function) to a display of constants"""
+    seqs, count = {}, {}
+    for scope in (module.body, list(ast.walk(fn))):
+        for st in scope:
+            if isinstance(st, ast.Assign) and len(st.targets) == 1 and isinstance(st.targets[0], ast.Name):
+                n = st.targets[0].id
+                count[n] = count.get(n, 0) + 1
+                v = _const_seq(st.value)
+                if v is not None:
+                    seqs[n] = v
+            elif isinstance(st, (ast.AugAssign, ast.For)):
+                t = st.target
+                if isinstance(t, ast.Name):
+                    count[t.id] = count.get(t.id, 0) + 2
+    return {n: v for n, v in seqs.items() if count.get(n) == 1}
+
+
+class _Comprehensions(ast.NodeTransformer):
+    def __init__(self, seqs):
+        self.seqs = seqs
+
+    def expand(self, node):
+        if isinstance(node, (ast.ListComp, ast.GeneratorExp)) and len(node.generators) == 1:
+            g = node.generators[0]
+            if not g.ifs and not g.is_async and isinstance(g.target, ast.Name):
+                vals = self.seqs.get(g.iter.id) if isinstance(g.iter, ast.Name) else _const_seq(g.iter)
+                if vals is not None:
+                    return ast.Tuple(elts=[_subst(node.elt, {g.target.id: ast.Constant(value=v)}) for v in vals],
+                                     ctx=ast.Load())
+        return None
+
+    def visit_ListComp(self, node):
+        self.generic_visit(node)
+        return self.expand(node) or node
+
+    def visit_Call(self, node):
+        self.generic_visit(node)
+        if isinstance(node.func, ast.Name) and node.func.id in ('tuple', 'list') and len(node.args) == 1 \
+                and not node.keywords:
+            a = node.args[0]
+            if isinstance(a, ast.Tuple):
+                return a
+            e = self.expand(a)
+            if e is not None:
+                return e
+        return node
+
+
+def _inline_helper(st, module):
+    """`T = F(a, b)` with F a module-level function made of single-name assignments and one final return"""
+    if not (isinstance(st, ast.Assign) and len(st.targets) == 1 and isinstance(st.value, ast.Call)
+            and isinstance(st.value.func, ast.Name) and not st.value.keywords):
+        return None
+    F = next((d for d in module.body if isinstance(d, ast.FunctionDef) and d.name == st.value.func.id), None)
+    if F is None or F.args.vararg or F.args.kwarg or F.args.kwonlyargs or F.args.defaults or F.decorator_list:
+        return None
+    params = [a.arg for a in F.args.args]
+    args = st.value.args
+    if len(params) != len(args) or not all(isinstance(a, (ast.Name, ast.Constant)) for a in args):
+        return None
+    body = list(F.body)
+    if body and isinstance(body[0], ast.Expr) and isinstance(body[0].value, ast.Constant):
+        body = body[1:]                                                   # docstring
+    if not body or not isinstance(body[-1], ast.Return) or body[-1].value is None:
+        return None
+    for b in body[:-1]:
+        if not (isinstance(b, ast.Assign) and len(b.targets) == 1 and isinstance(b.targets[0], ast.Name)):
+            return None
+    if any(isinstance(n, (ast.Return, ast.Yield, ast.YieldFrom, ast.Lambda, ast.Global, ast.Nonlocal))
+           for b in body[:-1] for n in ast.walk(b)):
+        return None
+    mapping = dict(zip(params, args))
+    for b in body[:-1]:
+        mapping.setdefault(b.targets[0].id, ast.Name(id=f'_{F.name}_{b.targets[0].id}', ctx=ast.Load()))
+    out = []
+    for b in body[:-1]:
+        tgt = mapping[b.targets[0].id]
+        if not isinstance(tgt, ast.Name):
+            return None
+        out.append(ast.Assign(targets=[ast.Name(id=tgt.id, ctx=ast.Store())], value=_subst(b.value, mapping)))
+    out.append(ast.Assign(targets=st.targets, value=_subst(body[-1].value, mapping)))
+    return out
+
+
+def _names(node):
+    return {n.id for n in ast.walk(node) if isinstance(n, ast.Name)}
+
+
+def _flatten(target, value, tupdefs, out):
+    """pairs (Name target, value expression) of a possibly nested tuple assignment; False if not resolvable"""
+    if isinstance(value, ast.Name) and value.id in tupdefs and isinstance(target, ast.Tuple):
+        value = tupdefs[value.id]
+    if isinstance(target, ast.Name):
+        out.append((target, value))
+        return True
+    if isinstance(target, ast.Tuple) and isinstance(value, (ast.Tuple, ast.List)) and len(target.elts) == len(value.elts):
+        return all(_flatten(t, v, tupdefs, out) for t, v in zip(target.elts, value.elts))
+    return False
+
+
+def _norm_block(stmts, module, tupdefs):
+    out = []
+    for st in stmts:
+        inl = _inline_helper(st, module)
+        if inl is not None:
+            out.extend(_norm_block(inl, module, tupdefs))
+            continue
+        if isinstance(st, ast.Assign) and len(st.targets) == 1:
+            t, v = st.targets[0], st.value
+            if isinstance(t, ast.Tuple):
+                pairs = []
+                if _flatten(t, v, tupdefs, pairs):
+                    tnames = [a.id for a, _ in pairs]
+                    used = set().union(*[_names(b) for _, b in pairs]) if pairs else set()
+                    if len(set(tnames)) == len(tnames) and not (set(tnames) & used):
+                        for a, b in pairs:
+                            tupdefs.pop(a.id, None)
+                            if isinstance(b, ast.Tuple):
+                                tupdefs[a.id] = b
+                            out.append(ast.Assign(targets=[ast.Name(id=a.id, ctx=ast.Store())], value=b))
+                        continue
+                for n in _names(t):
+                    tupdefs.pop(n, None)
+            elif isinstance(t, ast.Name):
+                tupdefs.pop(t.id, None)
+                if isinstance(v, ast.Tuple):
+                    tupdefs[t.id] = v
+            out.append(st)
+        elif isinstance(st, (ast.For, ast.While)):
+            st.body = _norm_block(st.body, module, tupdefs)
+            out.append(st)
+        elif isinstance(st, ast.If):
+            st.body = _norm_block(st.body, module, dict(tupdefs))
+            st.orelse = _norm_block(st.orelse, module, dict(tupdefs))
+            out.append(st)
+        elif isinstance(st, (ast.With, ast.Try)):
+            st.body = _norm_block(st.body, module, tupdefs)
+            out.append(st)
+        else:
+            if isinstance(st, ast.AugAssign) and isinstance(st.target, ast.Name):
+                tupdefs.pop(st.target.id, None)
+            out.append(st)
+    return out
+
+
+def _number_rows(fn):
+    """the argument of the k-th `<rows>.append(...)` (source order) on the list the function returns"""
+    rets = [n for n in ast.walk(fn) if isinstance(n, ast.Return) and n.value is not None]
+    if len(rets) != 1:
+        raise py2lean.Untranslatable("jacobian: expected exactly one return")
+    r = rets[0].value
+    if isinstance(r, ast.Call) and len(r.args) == 1 and isinstance(r.args[0], ast.Name):
+        r = r.args[0]
+    if not isinstance(r, ast.Name):
+        raise py2lean.Untranslatable("jacobian: the returned matrix is not a named list of rows")
+    rows = r.id
+    k = [0]
+
+    def walk(stmts):
+        out = []
+        for st in stmts:
+            if isinstance(st, ast.Expr) and isinstance(st.value, ast.Call) and isinstance(st.value.func, ast.Attribute) \
+                    and st.value.func.attr == 'append' and isinstance(st.value.func.value, ast.Name) \
+                    and st.value.func.value.id == rows and len(st.value.args) == 1 and not st.value.keywords:
+                out.append(ast.Assign(targets=[ast.Name(id=f'__row_{k[0]}', ctx=ast.Store())], value=st.value.args[0]))
+                k[0] += 1
+                continue
+            for attr in ('body', 'orelse', 'finalbody'):
+                if hasattr(st, attr) and isinstance(getattr(st, attr), list):
+                    setattr(st, attr, walk(getattr(st, attr)))
+            out.append(st)
+        return out
+    fn.body = walk(fn.body)
+    if k[0] != len(_HPARS):
+        raise py2lean.Untranslatable(f"jacobian appends {k[0]} rows per component, expected {len(_HPARS)}")
+    return fn
+
+
+def _normalise(fn, module, rows=False):
+    import copy
+    fn = copy.deepcopy(fn)
+    module = _Lookups().visit(copy.deepcopy(module))
+    fn = _Lookups().visit(fn)
+    seqs = _collect_seqs(module, fn)
+    comp = _Comprehensions(seqs)
+    module = comp.visit(module)
+    fn = comp.visit(fn)
+    fn.body = _norm_block(fn.body, module, {})
+    fn = _Lookups().visit(fn)          # look-ups brought in by inlined helpers
+    if rows:
+        fn = _number_rows(fn)
+    return ast.fix_missing_locations(fn)
+
+
 def _with_hessian(orig):
     def find_function(tree, qualname):
         fn = orig(tree, qualname)
         if qualname == 'hessian':
-            fn = _name_hessian_entries(fn)
+            fn = _name_hessian_entries(_normalise(fn, tree))
+        elif qualname == 'jacobian':
+            fn = _normalise(fn, tree, rows=True)
         return fn
     find_function._c04_hessian = True
     return find_function
+
+
+def _with_identity_casts(orig):
+    """`np.asarray(e)`, `np.asanyarray(e)`, `np.array(e)`, `float(e)`: the identity on real numbers"""
+    def expr_real(self, node):
+        if isinstance(node, ast.Call) and not node.keywords and len(node.args) == 1 \
+                and self.callee_name(node.func) in ('asarray', 'asanyarray', 'array', 'float', 'float64') \
+                and not isinstance(node.args[0], (ast.List, ast.Tuple, ast.ListComp, ast.GeneratorExp)):
+            return self.expr(node.args[0])
+        return orig(self, node)
+    expr_real._c04_casts = True
+    expr_real._c04_pi = True
+    return expr_real
+
+
+if not getattr(py2lean.Translator.expr_real, '_c04_casts', False):
+    py2lean.Translator.expr_real = _with_identity_casts(py2lean.Translator.expr_real)
 
 
 if not getattr(py2lean.find_function, '_c04_hessian', False):
@@ -106,14 +375,19 @@ TARGETS = [
     dict(file='AegeanTools/fitting.py', func='elliptical_gaussian', mode='real',
          params=_PARAMS, subst={}, outputs=[], returns='gauss',
          fallback={'gauss': _fb('gauss')}, all_params=_P),
+] + [
+    # one target per derivative expression, so that an expression the translator cannot follow falls back to
+    # its hand definition alone (the others stay regenerated).  `__row_k` is the argument of the k-th
+    # `<rows>.append(...)` of `fitting.jacobian` (see `_number_rows`).
     dict(file='AegeanTools/fitting.py', func='jacobian', mode='real',
          params=_PARAMS,
-         subst={f"pars[prefix + '{p}'].value": p for p in ['amp', 'xo', 'yo', 'sx', 'sy', 'theta']},
+         subst={f"pars[prefix + '{p}'].value": p for p in _HPARS},
          calls={'elliptical_gaussian': ('gauss', 8)},
-         outputs=[('dmds', 'dmds'), ('dmdxo', 'dmdxo'), ('dmdyo', 'dmdyo'),
-                  ('dmdsx', 'dmdsx'), ('dmdsy', 'dmdsy'), ('dmdtheta', 'dmdtheta')],
-         fallback={n: _fb(n) for n in ['dmds', 'dmdxo', 'dmdyo', 'dmdsx', 'dmdsy', 'dmdtheta']},
-         all_params=_P),
+         outputs=[(f'__row_{k}', name)],
+         fallback={name: _fb(name)},
+         all_params=_P)
+    for k, name in enumerate(['dmds', 'dmdxo', 'dmdyo', 'dmdsx', 'dmdsy', 'dmdtheta'])
+] + [
     # OBSERVATION ONLY (not part of the C04 verdict: the hessian is not handed to the optimiser; it feeds
     # RB_bias).  The 21 upper-triangle second-derivative expressions of `fitting.hessian`, named h_P_Q.
     # No fallback: if they become untranslatable they are simply absent and only
